@@ -17,7 +17,11 @@ fn iv_json(bi: &BiInterval, sa: &Vec<usize>) -> Value {
     let f = bi.forward();
     let r = bi.revcomp();
     let (fp, rp) = if f.upper > f.lower { (f.occ(sa), r.occ(sa)) } else { (vec![], vec![]) };
-    json!({"f": [f.lower, f.upper], "r": [r.lower, r.upper], "fp": usizes(&fp), "rp": usizes(&rp)})
+    // the private fields (lower, lower_rev, size, match_size) as the Serialize impl shows them
+    let ser = serde_json::to_value(bi).unwrap_or(json!({}));
+    let g = |k: &str| ser.get(k).and_then(|x| x.as_u64()).map(|x| x as i64).unwrap_or(-1);
+    json!({"f": [f.lower, f.upper], "r": [r.lower, r.upper], "fp": usizes(&fp), "rp": usizes(&rp),
+           "ser": [g("lower"), g("lower_rev"), g("size"), g("match_size")]})
 }
 
 fn match_json(m: &(BiInterval, usize, usize), sa: &Vec<usize>) -> Value {
@@ -76,24 +80,62 @@ fn run_one(log: &mut Log, tag: &str, seqs: &[Vec<u8>], k: u32, job: &Job) {
         return;
     }
     let (sa, b, l, o) = parts.unwrap();
-    let fmd = FMDIndex::from(FMIndex::new(&b, &l, &o));
-    // every third run: the owned index goes through a Serialize/Deserialize round trip after the smems
-    // events; all_smems, the extension chains and the plain backward searches are asked of the copy
-    let serde = (seqs.len() + seqs[0].len() + job.smems.len() + k as usize) % 3 == 0;
-    events(log, &fmd, &sa, job, 1);
-    if serde {
-        let mut back: Option<FMDIndex<BWT, Less, Occ>> = None;
-        let r = log.call("serde", json!({}), || {
-            let owned = FMDIndex::from(FMIndex::new(b.clone(), l.clone(), o.clone()));
-            back = Some(serde_json::from_str(&serde_json::to_string(&owned).unwrap()).unwrap());
-            json!({})
-        });
-        if r["st"] == "ok" {
-            events(log, &back.unwrap(), &sa, job, 2);
-            log.oblige("serde_roundtrip_fmdindex");
-        }
+    // construction: FMDIndex::from (checks the alphabet) or the unchecked constructor on the same legal input
+    let hsh = seqs.len() + seqs[0].len() + job.smems.len() + k as usize;
+    let fmd = if hsh % 4 == 1 {
+        log.oblige("fmd_unchecked_constructor");
+        unsafe { FMDIndex::from_fmindex_unchecked(FMIndex::new(&b, &l, &o)) }
     } else {
-        events(log, &fmd, &sa, job, 2);
+        FMDIndex::from(FMIndex::new(&b, &l, &o))
+    };
+    // mid-history, after the smems events (hsh % 3): 0 = the owned index goes through a serde round trip and
+    // the copy answers the rest; 1 = it is clone()d resp. clone_from()-ed into an index built for OTHER
+    // sequences that has answered already, and copy AND original answer the rest; 2 = nothing
+    events(log, &fmd, &sa, job, 1);
+    match hsh % 3 {
+        0 => {
+            let mut back: Option<FMDIndex<BWT, Less, Occ>> = None;
+            let r = log.call("serde", json!({}), || {
+                let owned = FMDIndex::from(FMIndex::new(b.clone(), l.clone(), o.clone()));
+                back = Some(serde_json::from_str(&serde_json::to_string(&owned).unwrap()).unwrap());
+                json!({})
+            });
+            if r["st"] == "ok" {
+                events(log, &back.unwrap(), &sa, job, 2);
+                log.oblige("serde_roundtrip_fmdindex");
+            }
+        }
+        1 => {
+            let mut back: Option<(FMDIndex<BWT, Less, Occ>, FMDIndex<BWT, Less, Occ>)> = None;
+            let from = hsh % 2 == 0;
+            let r = log.call("clone", json!({"from": from as u8}), || {
+                let owned = FMDIndex::from(FMIndex::new(b.clone(), l.clone(), o.clone()));
+                let copy = if from {
+                    let mut ot: Vec<u8> = b"GATTACA$TGTAATC$".to_vec();
+                    ot.extend_from_slice(b"AC$GT$");
+                    let osa = suffix_array(&ot);
+                    let ob = bwt(&ot, &osa);
+                    let al = dna::n_alphabet();
+                    let ol = less(&ob, &al);
+                    let oo = Occ::new(&ob, k + 2, &al);
+                    let mut used = FMDIndex::from(FMIndex::new(ob, ol, oo));
+                    let _ = used.smems(b"TTA", 1, 1);
+                    used.clone_from(&owned);
+                    used
+                } else {
+                    owned.clone()
+                };
+                back = Some((copy, owned));
+                json!({})
+            });
+            if r["st"] == "ok" {
+                let (copy, owned) = back.unwrap();
+                events(log, &copy, &sa, job, 2);
+                events(log, &owned, &sa, job, 2);
+                log.oblige(if from { "clone_from_fmdindex_other_text_both_continue" } else { "clone_fmdindex_both_continue" });
+            }
+        }
+        _ => events(log, &fmd, &sa, job, 2),
     }
 }
 
@@ -387,6 +429,23 @@ pub fn drive(log: &mut Log) {
             }
         }
         log.oblige("ext_every_symbol");
+        // one occurring string spelled forwards only, backwards only, and from the middle: the same
+        // bi-interval must come out whatever the order of the extensions
+        {
+            let a = rng.below(text.len() as u64) as usize;
+            let w: Vec<u8> = text[a..].iter().take(6).take_while(|&&c| c != b'$').cloned().collect();
+            if w.len() >= 2 {
+                let fwd: Vec<(u8, u8)> = w[1..].iter().map(|&c| (1u8, c)).collect();
+                let bwd: Vec<(u8, u8)> = w[..w.len() - 1].iter().rev().map(|&c| (0u8, c)).collect();
+                job.paths.push((w[0] as i32, fwd));
+                job.paths.push((w[w.len() - 1] as i32, bwd));
+                let all_f: Vec<(u8, u8)> = w.iter().map(|&c| (1u8, c)).collect();
+                let all_b: Vec<(u8, u8)> = w.iter().rev().map(|&c| (0u8, c)).collect();
+                job.paths.push((-1, all_f));
+                job.paths.push((-1, all_b));
+                log.oblige("ext_same_string_both_orders");
+            }
+        }
         // walks that run into an empty interval early (a symbol absent from the whole index when there
         // is one) and go on in both directions
         {
